@@ -499,7 +499,7 @@ def random_history(rng, length, classes=None, p_sub=0.3, weird=0.05):
             perm = [ref(LAYOUT["D"]) for _ in range(4)]
             seq = [perm[e] if isinstance(e, int) else e for e in seq]
             name = rng.choice(cn)
-            ops.append(cplx(rng.choice(LAYOUT["C"]), c, seq, sst, name, rng.choice([None] * 5 + ["z"]) if name is None else None))
+            ops.append(cplx(rng.choice(LAYOUT["C"]), c, seq, sst, name, rng.choice([None] * 5 + ["z", ""]) if name is None else None))
         elif r < 0.58:
             c = pick("S")
             if rng.random() < 0.12:
